@@ -640,6 +640,16 @@ def ord_parse_pipeline(repo, tier="quick"):
                     pass
     kw_ok = any("'kwargs'" in s_ for s_ in srcs)
     res_ok = any(s_.rstrip("~").endswith("arguments") for s_ in srcs)
+    if not res_ok:
+        # ... or a filtered copy of the bound arguments: {k: v for k, v in bound.arguments.items() if v is not None}
+        for u in updates:
+            t_ = u[3][0] if u[3] else None
+            if t_ is not None and t_[0] == "comp" and t_[1] == "dict" and len(t_[4]) == 1:
+                elem_ = t_[4][0][1]
+                e_ = elem_of(("sub", elem_, ("const", 0)))
+                k_, v_ = t_[3][1]
+                if e_ and e_[0] == "key" and e_[1][0] == "attr" and e_[1][2] == "arguments" and k_ == ("sub", elem_, ("const", 0)) and v_ == ("sub", elem_, ("const", 1)):
+                    res_ok = True
     mentions_kwargs = any(isinstance(x, ast.Constant) and x.value == "kwargs" for x in ast.walk(fi.node))
     if kw_ok and res_ok:
         obs.append(ob_ok(oid, fi, rets[0].ast, construct="out = {**free keywords, **reserved keys}", instance="merge", reason="free keys are kept verbatim next to the reserved ones"))
